@@ -272,7 +272,7 @@ impl World {
                 f.push(Failure::new("C10.inline_overflow", format!("{} on a static string wrote past the handle's inline storage", op.name())));
             }
             self.slots.repair();
-            self.alias_context(&mut f, ctx, false);
+            self.alias_context(&mut f, ctx, false, op);
             return StepResult { failures: f, fatal: true, outcome: real };
         }
 
@@ -368,6 +368,31 @@ impl World {
                 if matches!(real, Outcome::Panic(..)) && try_flag(op) && has_try_form(op) {
                     for c in ["C05.try_form_panicked", "C06.try_form_panicked"] {
                         f.push(Failure::new(c, format!("try_ form of {} panicked instead of returning ReserveError", op.name())));
+                    }
+                }
+                // an index that String rejects must be rejected as an index error, before anything else
+                if let Op::Insert { .. } | Op::InsertStr { .. } | Op::Remove { .. } | Op::Truncate { .. } = op {
+                    if let Some(m) = &pre_model_t {
+                        let bad = match op {
+                            Op::Remove { .. } => r.idx >= m.len() || !m.is_char_boundary(r.idx),
+                            Op::Truncate { .. } => r.idx <= m.len() && !m.is_char_boundary(r.idx),
+                            _ => r.idx > m.len() || !m.is_char_boundary(r.idx),
+                        };
+                        ctx.eval("C07.panic_parity");
+                        if bad {
+                            for c in ["C07.panic_parity", "C01.panic_parity"] {
+                                f.push(Failure::new(
+                                    c,
+                                    format!(
+                                        "{} with index {} on a {}-byte text: String panics on this index, LeanString reported {} instead",
+                                        op.name(),
+                                        r.idx,
+                                        m.len(),
+                                        real.class()
+                                    ),
+                                ));
+                            }
+                        }
                     }
                 }
                 if fault_refusals > 0 {
@@ -549,7 +574,7 @@ impl World {
             }
         }
         if fatal {
-            self.alias_context(&mut f, ctx, has_size_arg);
+            self.alias_context(&mut f, ctx, has_size_arg, op);
             return StepResult { failures: f, fatal: true, outcome: real };
         }
 
@@ -558,7 +583,7 @@ impl World {
             Ok(p) => p,
             Err(mut fails) => {
                 f.append(&mut fails);
-                self.alias_context(&mut f, ctx, has_size_arg);
+                self.alias_context(&mut f, ctx, has_size_arg, op);
                 return StepResult { failures: f, fatal: true, outcome: real };
             }
         };
@@ -721,13 +746,13 @@ impl World {
         let real_ok = matches!(real, Outcome::Ok(_));
         self.op_clauses(op, &r, &pre, &post, &pre_t, &pre_model_t, &events, requests, real_ok, &real, ctx, &mut f);
 
-        self.alias_context(&mut f, ctx, has_size_arg);
+        self.alias_context(&mut f, ctx, has_size_arg, op);
         StepResult { failures: f, fatal, outcome: real }
     }
 
     /// Failures that happen after an injected fault / giant request / callback panic are also
     /// violations of the property that covers those situations.
-    fn alias_context(&self, f: &mut Vec<Failure>, ctx: &Ctx, size_op: bool) {
+    fn alias_context(&self, f: &mut Vec<Failure>, ctx: &Ctx, size_op: bool, op: &Op) {
         let mut extra = Vec::new();
         for x in f.iter() {
             let p = x.property().to_string();
@@ -740,6 +765,15 @@ impl World {
             }
             if size_op && !ctx.fault_fired && p != "C06" && matches!(p.as_str(), "C01" | "C02" | "C03") {
                 extra.push(Failure::new(&format!("C06.size_op_{tail}"), x.detail.clone()));
+            }
+            // "shrinking never changes the text of any string", "the copy compares equal to the original"
+            let breaks_text = matches!(p.as_str(), "C01" | "C02")
+                || matches!(x.clause.as_str(), "C03.dangling_handle" | "C03.len_out_of_block" | "C03.use_after_free" | "C03.access_out_of_block");
+            if breaks_text && matches!(op, Op::ShrinkTo { .. } | Op::ShrinkToFit { .. }) {
+                extra.push(Failure::new(&format!("C13.text_{tail}"), x.detail.clone()));
+            }
+            if breaks_text && matches!(op, Op::Clone { .. } | Op::CloneFrom { .. }) {
+                extra.push(Failure::new(&format!("C08.copy_{tail}"), x.detail.clone()));
             }
             if ctx.injected_fired && p != "C18" && matches!(p.as_str(), "C01" | "C02" | "C03") {
                 extra.push(Failure::new(&format!("C18.after_panic_{tail}"), x.detail.clone()));
@@ -937,7 +971,8 @@ impl World {
                     if requests != 0 {
                         f.push(Failure::new("C10.keep_borrowing", format!("{name} on a static string issued {requests} allocator request(s)")));
                     }
-                    if !matches!(op, Op::Clear { .. }) && (b.kind != Kind::Static || b.ptr != a.ptr) {
+                    // "keep doing so": the handle still points at the caller's bytes (also after clear, with length 0)
+                    if b.kind != Kind::Static || b.ptr != a.ptr {
                         f.push(Failure::new(
                             "C10.keep_borrowing",
                             format!("{name} on a static string moved it to {} storage", b.kind.name()),
@@ -989,7 +1024,9 @@ impl World {
                 op,
                 Op::Push { .. } | Op::PushStr { .. } | Op::Insert { .. } | Op::InsertStr { .. } | Op::AddAssign { .. } | Op::Add { .. } | Op::Write { .. } | Op::Extend { .. }
             );
-            let owned = a.kind == Kind::Inline || (a.kind == Kind::Heap && a.rc == Some(1));
+            // "exclusively owned" is a fact about the handles that exist, not about the counter the crate keeps
+            let sharers = pre.iter().flatten().filter(|o| o.kind == Kind::Heap && o.ptr == a.ptr).count();
+            let owned = a.kind == Kind::Inline || (a.kind == Kind::Heap && sharers == 1);
             if appendish && honest && owned && ml <= a.cap {
                 ctx.eval("C11.no_realloc_within_cap");
                 if a.kind == Kind::Heap && ml == a.cap && ml > a.len {
